@@ -222,7 +222,8 @@ def offending_functions(tool, info):
             fr = verus.enclosing(info.fn_ranges, a)
             if fr and not (r and r[2] in ('lemma', 'ghost')):
                 keys.add(fr[2])
-            elif not fr and not r:
+            elif not fr and (not r or r[2] == 'blk'):
+                # (an associated constant sits inside an impl block's marker region)
                 c = const_item_at(info, a)
                 if c:
                     keys.add('const ' + c)
